@@ -144,6 +144,13 @@ def handle : Handler
       let h ← rdOpt (rdDict rdIgnArg)
       Rd.done
       pure s!"ok {wrRoute (managerAlign sys r d h)}"
+  | "c10_route_pre" => some do
+      let sys ← Rd.listOf rdSpecies
+      let r ← rdDict (rdOpt (Rd.listOf rdPair))
+      let d ← rdOpt (rdDict rdDefArg)
+      let h ← rdOpt (rdDict rdIgnArg)
+      Rd.done
+      pure s!"ok {wrRoute (managerAlignPreparsed sys r d h)}"
   | _ => none
 
 end DRestr
